@@ -84,3 +84,17 @@ def variant_arms(f, eb, pred):
                 out[v] = t
             info.append((bb, adt, missing, ow, ow_live))
     return out, info
+
+
+def struct_default(facts, adt, field):
+    """The value `<adt as Default>::default()` gives `field`, read from the struct literal in that function: an abstract
+    value (("i", n) / ("v", variant, None)) or None when it is not a constant there."""
+    from .flow import Sccp, operand_at
+    g = facts.fns.get("<%s as core::default::Default>::default" % adt)
+    if g is None:
+        return None
+    sx = Sccp(g).run([(0, {})])
+    for bb, j, st in g.stmts():
+        if st["k"] == "assign" and st["rv"]["k"] == "agg" and st["rv"].get("adt") == adt and field in st["rv"].get("fields", []):
+            return operand_at(sx, bb, st, st["rv"]["ops"][st["rv"]["fields"].index(field)])
+    return None
